@@ -468,7 +468,10 @@ def gen_doc(rng, idx: int) -> Doc:
             y -= GAPS[(line_no + idx) % len(GAPS)] * 0.5 + 12
             line_no += 1
             op = W.ser_string(s) if rng.random() < 0.6 else b"<" + s.hex().encode() + b">"
-            cur += b"BT /%s %s Tf %s %s Td %s Tj ET\n" % (nm.encode(), W.ser_real(size), W.ser_real(x), W.ser_real(y), op)
+            # text-state parameters are set and NOT reset: they must not survive into the next page
+            ts = rng.choice([b"", b"", b"1.5 Tc ", b"2.25 Tw ", b"90 Tz ", b"3 Ts ", b"14 TL ", b"0.5 Tc 110 Tz "])
+            cur += b"BT /%s %s Tf %s%s %s Td %s Tj ET\n" % (nm.encode(), W.ser_real(size), ts, W.ser_real(x),
+                                                            W.ser_real(y), op)
             shows.append((fd, s))
             if forms and rng.random() < 0.4:
                 fnum, fres, ftable, own, fshows = rng.choice(forms)
